@@ -177,6 +177,10 @@ func lstep(st *lstate, in cOp, out cOut) (bool, *lstate) {
 		}
 		n := st.clone()
 		n.Bucket = false
+		// the pending uploads of a bucket go with it
+		n.Uploads = nil
+		n.Upload = false
+		n.Parts = map[int]string{}
 		return out.Status == 204, n
 	}
 	if !st.Bucket && st.Auto {
@@ -347,6 +351,9 @@ func lstep(st *lstate, in cOp, out cOut) (bool, *lstate) {
 		sort.Strings(want)
 		got := append([]string{}, out.List...)
 		sort.Strings(got)
+		if len(want) == 0 && out.Status == 404 {
+			return true, st // (a bucket that has not had an upload: outside the statement of C14)
+		}
 		return out.Status == 200 && sameList(got, want), st
 	case "listparts":
 		if !st.Upload {
@@ -477,6 +484,17 @@ func c07Scenarios() []c07Scenario {
 		{name: "part-complete-abort", kinds: []drv.Kind{drv.Mem, drv.Bolt}, upload: true, setupOps: []cOp{{Kind: "part", N: 1, Body: "a"}},
 			threads: [][]cOp{{{Kind: "part", N: 2, Body: "bb"}}, {{Kind: "complete", Parts: []model.CPart{{N: 1, ETag: eA}}}}, {{Kind: "abort"}}},
 			final:   []cOp{{Kind: "get", Key: "k"}, {Kind: "listparts"}}},
+		// bucket deletion against the multipart bookkeeping: an upload initiated in a bucket
+		// lives and dies with that bucket, whatever overlaps
+		{name: "initiate-deletebucket", kinds: []drv.Kind{drv.Mem, drv.Bolt, drv.MultiMem},
+			threads: [][]cOp{{{Kind: "initiate", Key: "k"}}, {{Kind: "deletebucket"}}},
+			final:   []cOp{{Kind: "createbucket"}, {Kind: "listuploads"}}},
+		{name: "deletebucket-recreate-initiate", kinds: []drv.Kind{drv.Mem, drv.Bolt, drv.MultiMem},
+			threads: [][]cOp{{{Kind: "deletebucket"}}, {{Kind: "createbucket"}, {Kind: "initiate", Key: "k"}}},
+			final:   []cOp{{Kind: "createbucket"}, {Kind: "listuploads"}}},
+		{name: "deletebucket-deletebucket", kinds: []drv.Kind{drv.Mem, drv.Bolt, drv.MultiMem},
+			threads: [][]cOp{{{Kind: "deletebucket"}}, {{Kind: "deletebucket"}}},
+			final:   []cOp{{Kind: "createbucket"}, {Kind: "list"}}},
 		{name: "createbucket-put-deletebucket", kinds: []drv.Kind{drv.Mem, drv.Bolt, drv.MultiMem}, noBucket: true,
 			threads: [][]cOp{{{Kind: "createbucket"}}, {{Kind: "put", Key: "k", Body: "A"}}, {{Kind: "deletebucket"}}},
 			final:   []cOp{{Kind: "get", Key: "k"}}},
